@@ -15,7 +15,7 @@ What the proof leaves open are three classes, each an open finding with a `decid
 -/
 import Restful.Lemmas.Agree
 import Restful.Lemmas.StateShape
-import Restful.Lemmas.Translated
+import Restful.Lemmas.TieOrder
 namespace Restful
 namespace Props
 variable (E : ReEnv)
@@ -159,7 +159,7 @@ end C18Audit
 -- also: Restful.StateShape.consts_shape
 -- also: Restful.StateShape.routing_shape
 
-/-! The regenerated tie (tools/gotrans → Gen/Translated.lean, Lemmas/Translated.lean): the decision
+/-! The regenerated tie (tools/gotrans → Gen/Translated.lean, Lemmas/Tie*.lean): the decision
     functions this property's model contains ARE the ones translated from the Go sources on this run. -/
 -- also: Restful.Tie.curly_less
 -- also: Restful.Tie.jsr_route_less
